@@ -313,11 +313,31 @@ func standardRun(t *testing.T, seed uint64, p *Plan, out *Outcome, h runHooks) *
 	}
 	if rr.Reason == "stuck" || rr.Reason == "maxsteps" {
 		// heal and give everything a bounded chance to return before judging a hang
+		// A round that ends at the step cap with calls still returning is the harness's budget running out, not a
+		// hang (for example server-side blocking timeouts of minutes with a one-second keep-alive): keep draining while
+		// every round of 2000 steps completes at least one more call.
 		s.Heal()
-		s.Cfg.MaxSteps += 2000
 		s.Cfg.DrainBound = 2 * time.Minute
-		rr2 := s.Run(s.AllTasksDone)
-		out.Reason = rr.Reason + "+" + rr2.Reason
+		completed := func() int {
+			n := 0
+			for _, t := range s.Tasks {
+				n += len(t.Recs)
+				if t.Running() != nil {
+					n--
+				}
+			}
+			return n
+		}
+		for round := 0; round < 40; round++ {
+			before := completed()
+			s.Cfg.MaxSteps = s.Step + 2000
+			rr2 := s.Run(s.AllTasksDone)
+			out.Reason = rr.Reason + "+" + rr2.Reason
+			if rr2.Reason != "maxsteps" || completed() == before {
+				break
+			}
+			s.Stats["drain.extra-rounds"]++
+		}
 	}
 	// calls still running now are hung: closing the client below would release them and hide it
 	for _, t := range s.Tasks {
